@@ -29,6 +29,13 @@ CHECKS["C01"] = dict(
     note="Reference machine ref/cond.py agrees with gcc -E on every judged (program, configuration); pairs gcc diagnoses are excluded; only .lines membership is compared.",
 )
 
+CHECKS["C03"] = dict(
+    cat="exploration", ref="DESIGN.md §3 C03",
+    technique="bounded-exhaustive enumeration of (macro table, invocation) pairs (all bodies up to k phrases, all balanced invocations up to n tokens, ISO C examples) expanded by the real MacroExpander through both definition paths, against a hide-set reference expander and gcc -E in batch; per-expansion watchdog",
+    text="Every enumerated pair that gcc accepts without diagnostic (and on which gcc and the reference expander agree) must expand to the same token sequence in the real code, via #define and via -D, and `#if <invocation>` must have gcc's truth value; a timeout is a violation.",
+    note="Oracle = ref/expand.py AND gcc -E (disagreements between the two are excluded and counted); one recorded finding (#__VA_ARGS__ comma spacing).",
+)
+
 PENDING = {}
 
 
